@@ -209,7 +209,19 @@ func runC13(c *Ctx) {
 		}
 		R.Add("E5.exit", "connection.write / queued commands are drained and answered when the writer stops", c.P.RelPos(writeFn.Pos()), st, d)
 	}
-	// ---- every accepted command has a completion source
+	c.timeoutRule()
+	R.Require("E5.close", 3, "")
+	R.Require("E5.exit", 2, "")
+	R.Require("E5.leave", 1, "")
+	R.Require("E5.stop-order", 2, "")
+	R.Explain = "Channel discipline by goroutine role over the VTA call graph: who closes and who sends on each connection channel, what the writer does on its exit path, whether teardown leaves the registry first and synchronously, whether every accepted command has a completion source. " +
+		"The wall-clock bound of the property is not decided. Genuine defects of the current tree (sends on activeMsgCompleteChan from the writer and the timeout goroutine while the reader closes it; no answer to outstanding/queued callers at writer exit) are recorded as known findings."
+	_ = strings.Join
+}
+
+// timeoutRule: every accepted command has a completion source.
+func (c *Ctx) timeoutRule() {
+	R := c.R
 	onActive := c.P.Method("service", "connection", "onActiveEvent")
 	if onActive == nil {
 		R.Fatal("anchor connection.onActiveEvent not found")
@@ -276,11 +288,4 @@ func runC13(c *Ctx) {
 		}
 		R.Add("E5.timeout", "connection.onActiveEvent / a timeout goroutine is started for every duration >= 0", c.P.RelPos(onActive.Pos()), st, d)
 	}
-	R.Require("E5.close", 3, "")
-	R.Require("E5.exit", 2, "")
-	R.Require("E5.leave", 1, "")
-	R.Require("E5.stop-order", 2, "")
-	R.Explain = "Channel discipline by goroutine role over the VTA call graph: who closes and who sends on each connection channel, what the writer does on its exit path, whether teardown leaves the registry first and synchronously, whether every accepted command has a completion source. " +
-		"The wall-clock bound of the property is not decided. Genuine defects of the current tree (sends on activeMsgCompleteChan from the writer and the timeout goroutine while the reader closes it; no answer to outstanding/queued callers at writer exit) are recorded as known findings."
-	_ = strings.Join
 }
